@@ -8,6 +8,7 @@ import (
 	"sync"
 	"sync/atomic"
 
+	"github.com/tikv/pd/server/core"
 	"verif/harness/lib/ev"
 	"verif/harness/lib/hist"
 	"verif/harness/lib/world"
@@ -44,7 +45,16 @@ type regress struct {
 	fields []string
 }
 
+// heldObj is a region object a reader obtained from the cache and keeps using (a long-lived consumer).
+type heldObj struct {
+	obj *core.RegionInfo
+	v   view
+}
+
 type readerState struct {
+	held     []heldObj
+	mutated  []string
+	holds    int64
 	id       int
 	rng      *rand.Rand
 	last     map[uint64]seen
@@ -68,8 +78,30 @@ func (rs *readerState) note(v view, call, ret int64, op string) {
 
 func (rs *readerState) loop(t target, alphabet []string, idLo, idHi uint64, stop *int32) {
 	keys := append([]string{""}, alphabet...)
+	getter, canHold := t.(interface {
+		GetInfo(id uint64) *core.RegionInfo
+	})
 	for atomic.LoadInt32(stop) == 0 {
 		rs.reads++
+		if canHold && rs.reads%4 == 0 {
+			// keep a cached object across updates; re-read one kept earlier: it must not have changed
+			if len(rs.held) > 0 {
+				h := rs.held[rs.rng.Intn(len(rs.held))]
+				if now := liteOfInfo(h.obj); (now.ID != h.v.ID || now.Start != h.v.Start || now.End != h.v.End || now.Ver != h.v.Ver || now.Conf != h.v.Conf || now.Term != h.v.Term) && len(rs.mutated) < 3 {
+					rs.mutated = append(rs.mutated, fmt.Sprintf("object obtained as id=%d %s v%d c%d t%d now reads id=%d %s v%d c%d t%d", h.v.ID, vr(h.v), h.v.Ver, h.v.Conf, h.v.Term, now.ID, vr(now), now.Ver, now.Conf, now.Term))
+				}
+			}
+			id := idLo + uint64(rs.rng.Int63n(int64(idHi-idLo+1)))
+			if obj := getter.GetInfo(id); obj != nil {
+				rs.holds++
+				ho := heldObj{obj, liteOfInfo(obj)}
+				if len(rs.held) < 256 {
+					rs.held = append(rs.held, ho)
+				} else {
+					rs.held[rs.rng.Intn(len(rs.held))] = ho
+				}
+			}
+		}
 		switch rs.rng.Intn(6) {
 		case 0, 1: // full scan
 			call := hist.Tick()
@@ -146,7 +178,15 @@ func extents(recs []delivRec) map[uint64]extent {
 	return out
 }
 
+// dropRec is one admin "drop region from cache" request of the concurrent history.
+type dropRec struct {
+	ID   uint64
+	Call int64
+	Ret  int64
+}
+
 type concResult struct {
+	drops      []dropRec
 	recs       []delivRec
 	readers    []*readerState
 	accepted   int
@@ -160,6 +200,12 @@ type concResult struct {
 // epoch-monotone; at quiescence oracle (c) holds and the final epoch of an id is not below any
 // accepted heartbeat of that id that cannot have been displaced afterwards.
 func runConcurrent(r *ev.Run, t target, w *world.World, plan []world.Delivery, streams, readers int, rng *rand.Rand, label string, witnessBase map[string]interface{}) *concResult {
+	return runConcurrentD(r, t, w, plan, streams, readers, rng, label, witnessBase, 0)
+}
+
+// runConcurrentD additionally issues nDrops admin "drop region from cache" requests from one more
+// goroutine while the heartbeats are delivered. A dropped id is treated like a displaced one.
+func runConcurrentD(r *ev.Run, t target, w *world.World, plan []world.Delivery, streams, readers int, rng *rand.Rand, label string, witnessBase map[string]interface{}, nDrops int) *concResult {
 	res := &concResult{}
 	per := make([][]world.Delivery, streams)
 	for _, d := range plan {
@@ -167,6 +213,7 @@ func runConcurrent(r *ev.Run, t target, w *world.World, plan []world.Delivery, s
 	}
 	out := make([][]delivRec, streams)
 	var stop int32
+	var delivered int64
 	var wgR, wgD sync.WaitGroup
 	start := make(chan struct{})
 	idLo, idHi := w.Cfg.IDBase+1, w.MaxID()
@@ -207,8 +254,31 @@ func runConcurrent(r *ev.Run, t target, w *world.World, plan []world.Delivery, s
 					rec.Ret = hist.Tick()
 				}
 				out[s] = append(out[s], rec)
+				atomic.AddInt64(&delivered, 1)
 			}
 		}(s)
+	}
+	if nDrops > 0 && len(plan) > 0 {
+		drng := rand.New(rand.NewSource(rng.Int63()))
+		wgR.Add(1)
+		go func() {
+			defer wgR.Done()
+			<-start
+			every := int64(len(plan)/nDrops + 1)
+			next := every
+			for atomic.LoadInt32(&stop) == 0 && len(res.drops) < nDrops {
+				if atomic.LoadInt64(&delivered) < next {
+					runtime.Gosched()
+					continue
+				}
+				next += every
+				id := plan[drng.Intn(len(plan))].Snap.R.ID
+				d := dropRec{ID: id, Call: hist.Tick()}
+				t.Drop(id)
+				d.Ret = hist.Tick()
+				res.drops = append(res.drops, d)
+			}
+		}()
 	}
 	close(start)
 	wgD.Wait()
@@ -257,6 +327,11 @@ func runConcurrent(r *ev.Run, t target, w *world.World, plan []world.Delivery, s
 	// possible displacement of id inside the tick window (lo, hi): an accepted heartbeat of another id
 	// overlapping anything id ever covered, whose execution interval intersects the window
 	displacer := func(id uint64, lo, hi int64) *delivRec {
+		for i := range res.drops {
+			if d := &res.drops[i]; d.ID == id && d.Ret > lo && d.Call < hi {
+				return &delivRec{Call: d.Call, Ret: d.Ret} // dropped by the admin request
+			}
+		}
 		e := ext[id]
 		for i := range res.recs {
 			d := &res.recs[i]
@@ -278,6 +353,9 @@ func runConcurrent(r *ev.Run, t target, w *world.World, plan []world.Delivery, s
 		}
 	}
 	for _, rs := range res.readers {
+		for _, m := range rs.mutated {
+			violate("served-object-mutated-in-place:concurrent", "a region object a reader obtained from the cache and kept was modified in place: "+m, map[string]interface{}{"reader": rs.id})
+		}
 		for _, b := range rs.scanBad {
 			key := "single-scan-overlaps-or-unsorted:concurrent"
 			if b[:3] == "nil" {
